@@ -313,6 +313,8 @@ def run(ctx):
                         "@jit(nopython=True) preserves the Python meaning of the metric bodies",
                         "all array arguments of one metric have the same length N"]
     res.not_decided += ["floating-point rounding error of the closed forms", "value of r2 on constant y (tss == 0) beyond being selected only then"]
+    from .common import hidden_state as _hidden_state
+    _hidden_state(rc, "H1", sorted(INT_SHAPES), "metrics and fit helpers")
     res.require_instances("C16 programs compared", programs, 30)
 
 
